@@ -287,6 +287,8 @@ def canonical_template(im, fn, known_types):
 
     canon = re.sub(r"[A-Za-z_][A-Za-z0-9_]*", rep, text)
     canon = re.sub(r"\s+", " ", canon)
+    # the only variant of a single-unit type, named in `fn unit`, is a placeholder too
+    canon = re.sub(r"Self :: UnitType :: [A-Za-z_][A-Za-z0-9_]*", "Self :: UnitType :: V0", canon)
     return canon, order
 
 
